@@ -99,11 +99,12 @@ pub fn render_entity(table: &TableDef) -> Result<String, String> {
         used_types.needs_unique_constraint = true;
     }
 
-    // Check for server defaults (function calls like now())
+    // Check for server defaults: every default that render_column wraps in text(...)
+    // (function calls like now(), and bare expressions such as CURRENT_TIMESTAMP)
     let has_server_default = table
         .columns
         .iter()
-        .any(|c| c.default.as_ref().is_some_and(|d| d.to_sql().contains('(')));
+        .any(|c| c.default.as_ref().is_some_and(|d| default_uses_text(&d.to_sql())));
     if has_server_default {
         used_types.needs_text = true;
     }
@@ -354,6 +355,19 @@ fn render_enum(lines: &mut Vec<String>, name: &str, values: &EnumValues) {
             }
         }
     }
+}
+
+/// Whether `render_column` emits `text("...")` for this default (must mirror its branches):
+/// a function call, or anything that is not a boolean, a quoted literal or a number.
+fn default_uses_text(default_str: &str) -> bool {
+    if default_str.contains('(') {
+        return true;
+    }
+    !(default_str == "true"
+        || default_str == "false"
+        || default_str.starts_with('\'')
+        || default_str.starts_with('"')
+        || default_str.parse::<f64>().is_ok())
 }
 
 fn render_column(
